@@ -55,6 +55,7 @@ type outTable struct {
 	SyncUses   map[string]int      `json:"synchronised_by_construction"`
 	Signals    []string            `json:"signals"`
 	BadSignals map[string]string   `json:"signals_not_usable"`
+	AliasWrites []aliasWrite       `json:"alias_writes"` // writes through an alias of a value kept in a shared container
 	Notes      []string            `json:"notes"`
 	TypeErrors []string            `json:"type_errors"`
 }
@@ -133,7 +134,7 @@ func findPkgVars(files []*ast.File) map[types.Object]bool {
 func analyse(files []*ast.File) *outTable {
 	an := &analysis{units: map[*types.Func]*unit{}, lits: map[*ast.FuncLit]*unit{}, fieldTgts: map[string][]*types.Func{},
 		classes: map[string]bool{}, runCalls: map[string]int{}, syncUses: map[string]int{},
-		foreignClose: map[string]string{}, closed: map[string]int{}, sentTo: map[string]bool{}}
+		foreignClose: map[string]string{}, closed: map[string]int{}, sentTo: map[string]bool{}, aliasWrites: map[string]aliasWrite{}}
 	an.pkgVars = findPkgVars(files)
 	var decls []*unit
 	for _, f := range files {
@@ -234,6 +235,8 @@ func analyse(files []*ast.File) *outTable {
 		an.runCalls = map[string]int{}
 		an.syncUses = map[string]int{}
 		an.foreignClose, an.closed, an.sentTo = map[string]string{}, map[string]int{}, map[string]bool{}
+		an.aliasWrites = map[string]aliasWrite{}
+		an.sharedChanged = false
 		for i := 0; i < len(an.order); i++ { // an.order grows while closures are discovered
 			u := an.order[i]
 			u.accesses, u.calls = nil, nil
@@ -252,7 +255,7 @@ func analyse(files []*ast.File) *outTable {
 				w.coarseWalk(u.body)
 			}
 		}
-		changed := false
+		changed := an.sharedChanged
 		in := map[*unit][][]lockItem{}
 		for _, u := range an.order {
 			for _, c := range u.calls {
@@ -422,6 +425,12 @@ func finish(an *analysis) *outTable {
 	t := &outTable{EntryLocks: map[string][]string{}, SingleCall: an.runCalls, SyncUses: an.syncUses, Entries: []outEntry{}, Coarse: []string{}, Calls: []outCall{}}
 	locs, mus, fns, sigs := map[string]bool{}, map[string]bool{}, map[string]bool{}, map[string]bool{}
 	t.BadSignals = map[string]string{}
+	t.AliasWrites = []aliasWrite{}
+	for _, a := range an.aliasWrites {
+		a.Fn = qualIf(a.Fn)
+		t.AliasWrites = append(t.AliasWrites, a)
+	}
+	sort.Slice(t.AliasWrites, func(i, j int) bool { return t.AliasWrites[i].Pos < t.AliasWrites[j].Pos })
 	for k, p := range an.foreignClose {
 		t.BadSignals[k] = "closed at " + p + " by a goroutine that is not known to be the object's only owner"
 	}
@@ -533,6 +542,13 @@ func finish(an *analysis) *outTable {
 	sort.Strings(t.Coarse)
 	_ = token.NoPos
 	return t
+}
+
+func qualIf(n string) string {
+	if namePrefix != "" {
+		return qual(n)
+	}
+	return n
 }
 
 func qual(n string) string {
